@@ -335,7 +335,10 @@ def warm_caches(g):
         except Exception:  # noqa: BLE001
             pass
     if impl.is_ts(g):
-        for f in (lambda: g.variables, g.is_minimal_graph, g.is_stationary_graph):
+        # the memoised time-series answers, and the derived graphs (read-only: producing them must not change the graph)
+        for f in (lambda: g.variables, g.is_minimal_graph, g.is_stationary_graph, g.get_minimal_graph,
+                  lambda: g.adjacency_matrices, g.get_stationary_graph, g.get_summary_graph,
+                  lambda: g.extend_graph(1, 1)):
             try:
                 f()
             except Exception:  # noqa: BLE001
